@@ -208,6 +208,10 @@ def main(mod):
             s = mod.signature(c, results[c["id"]])
             if s is not None:
                 sigs.add(s)
+        if discarded > max(3, len(cases) // 10):
+            why = next((f.get("detail") for c in cases for f in mod.judge(c, results[c["id"]]) if f["class"] == "discard"), None)
+            raise HarnessError("%d of %d cases could not be evaluated (their valid-by-construction inputs do not build even in a clean "
+                               "directory), so this run decides nothing; first reason: %s" % (discarded, len(cases), json.dumps(why)[:1500]))
         det = determinism_selftest(mod, cases, results, 8 if a.tier == "quick" else 48)
         selfcheck = mod.selfcheck(a.tier, seed) if hasattr(mod, "selfcheck") else None
         # ---- report
